@@ -622,3 +622,47 @@ CASES.append({'name': 'c12-sample-width-reintroduced', 'props': ['C12', 'C11'], 
               'edits': [('oxmpl/src/base/spaces/real_vector_state_space.rs', ' || !(upper - lower).is_finite()', '')]})
 CASES.append({'name': 'benign-c12-cutoff-1e-12', 'props': ['C12', 'C11'], 'expect': [],
               'edits': [('oxmpl/src/base/states/so3_state.rs', 'if norm < 1e-9 {', 'if norm < 1e-12 {')]})
+
+# ---------------------------------------------------------------- C09 / C10 algebraic clauses (normal forms, round 12)
+case('c09-so2-asym-min', ['C09'], ['C09.sym'],
+     (SO2, "        diff = (diff + PI).rem_euclid(2.0 * PI) - PI;\n        diff.abs()",
+           "        diff = diff.rem_euclid(2.0 * PI);\n        diff.min(PI)"))
+case('c09-so2-zero-offset', ['C09'], ['C09.zero'],
+     (SO2, "        diff = (diff + PI).rem_euclid(2.0 * PI) - PI;\n        diff.abs()",
+           "        diff = (diff + PI).rem_euclid(2.0 * PI) - PI;\n        diff.abs().max(1e-3)"))
+case('c09-so2-period-half', ['C09'], ['C09.period'],
+     (SO2, "        diff = (diff + PI).rem_euclid(2.0 * PI) - PI;\n        diff.abs()",
+           "        diff = (diff + 2.0 * PI).rem_euclid(4.0 * PI) - 2.0 * PI;\n        diff.abs().min(PI)"))
+case('c09-rv-weighted-first', ['C09'], ['C09.sym'],
+     (RV, "            .map(|(v1, v2)| (v1 - v2).powi(2))", "            .map(|(v1, v2)| (v1 - v2).powi(2) * (1.0 + v1.abs().min(1e-3)))"))
+case('c10-so2-reversed-diff', ['C10'], ['C10.ends'],
+     (SO2, "let mut diff_to_from = to.clone().normalise().value - from.clone().normalise().value;",
+           "let mut diff_to_from = from.clone().normalise().value - to.clone().normalise().value;"))
+case('c10-rv-from-to-swapped', ['C10'], ['C10.ends'],
+     (RV, "out_state.values[i] = from.values[i] + (to.values[i] - from.values[i]) * t;",
+          "out_state.values[i] = to.values[i] + (from.values[i] - to.values[i]) * t;"))
+case('c10-rv-ease', ['C10'], ['C10.affine'],
+     (RV, "out_state.values[i] = from.values[i] + (to.values[i] - from.values[i]) * t;",
+          "out_state.values[i] = from.values[i] + (to.values[i] - from.values[i]) * t * t * (3.0 - 2.0 * t);"))
+case('c10-so3-slerp-weights-swapped', ['C10'], ['C10.ends'],
+     (SO3, "            let s0 = ((1.0 - t) * theta).sin() / sin_theta;\n            let s1 = (t * theta).sin() / sin_theta * sign;",
+           "            let s0 = (t * theta).sin() / sin_theta;\n            let s1 = ((1.0 - t) * theta).sin() / sin_theta * sign;"))
+case('c10-so3-lerp-component-mixup', ['C10'], ['C10.ends'],
+     (SO3, "            out_state.y = from.y + t * (to.y * sign - from.y);", "            out_state.y = from.y + t * (to.z * sign - from.y);"))
+case('c10-so2-swap-asym-offset', ['C10'], ['C10.swap'],
+     (SO2, "        out_state.value = from.value + diff_to_from * t;", "        out_state.value = from.value + diff_to_from * t + 1e-3 * t * (1.0 - t) * from.value;"))
+case('benign-c09-so2-rem-form', ['C09', 'C10'], [],
+     (SO2, "        diff = (diff + PI).rem_euclid(2.0 * PI) - PI;\n        diff.abs()",
+           "        diff = diff.rem_euclid(2.0 * PI);\n        if diff > PI {\n            2.0 * PI - diff\n        } else {\n            diff\n        }"))
+case('benign-c09-so2-pi-minus', ['C09', 'C10'], [],
+     (SO2, "        diff = (diff + PI).rem_euclid(2.0 * PI) - PI;\n        diff.abs()",
+           "        diff = diff.rem_euclid(2.0 * PI);\n        PI - (diff - PI).abs()"))
+case('benign-c09-rv-loop', ['C09', 'C10'], [],
+     (RV, "        state1\n            .values\n            .iter()\n            .zip(state2.values.iter())\n            .map(|(v1, v2)| (v1 - v2).powi(2))\n            .sum::<f64>()\n            .sqrt()",
+          "        let mut acc = 0.0;\n        for i in 0..state1.values.len() {\n            let d = state1.values[i] - state2.values[i];\n            acc += d * d;\n        }\n        acc.sqrt()"))
+case('benign-c10-rv-lerp-form', ['C09', 'C10', 'C04'], [],
+     (RV, "out_state.values[i] = from.values[i] + (to.values[i] - from.values[i]) * t;",
+          "let delta = to.values[i] - from.values[i];\n            out_state.values[i] = from.values[i] + t * delta;"))
+case('benign-c10-so3-dot-helper', ['C09', 'C10'], [],
+     (SO3, "        let mut dot = from.x * to.x + from.y * to.y + from.z * to.z + from.w * to.w;\n\n        let sign = if dot < 0.0 { -1.0 } else { 1.0 };\n        dot *= sign;",
+           "        let raw = from.x * to.x + from.y * to.y + from.z * to.z + from.w * to.w;\n        let (sign, dot) = if raw < 0.0 { (-1.0, -raw) } else { (1.0, raw) };"))
